@@ -9,7 +9,7 @@ def fam_size(case, ref, unit):
     roles = ("size", "count")
     yield from faults.size_perturbations(case.b, ref.fields, roles=roles)
     n_size = sum(1 for x in ref.fields if x[5] in roles)
-    if unit.get("tier") == "thorough" and case.ndev == 0 and n_size <= 14:
+    if unit.get("tier") == "thorough" and case.ndev == 0 and n_size <= 12:
         # pairs of perturbed size fields (second one strictly later in wire order), +-1 and 0 only; messages with
         # more than 14 size-like fields are left to the single faults (their parts are roots of their own)
         for m, f in faults.size_perturbations(case.b, ref.fields, deltas=(-1, 1), absolutes=(0,), with_max=False, roles=roles):
@@ -24,7 +24,7 @@ def fam_value(case, ref, unit):
     if unit.get("value_valid", True):
         yield from faults.boundary_values(case.b, ref.fields, unit["seed"])
     n_con = sum(1 for x in ref.fields if V.is_constrained(x[1]))
-    if unit.get("tier") == "thorough" and case.ndev == 0 and n_con <= 14:
+    if unit.get("tier") == "thorough" and case.ndev == 0 and n_con <= 10:
         for m, f in faults.value_corruptions(case.b, ref.fields, unit["seed"]):
             rm = ref_decode(case.root, m, cc=case.cc, enc=case.enc, lenient=True)
             later = [x for x in rm.fields if x[2] > f["offset"]]
